@@ -343,6 +343,14 @@ def obligations(ctx: Ctx):
         Ob(f"{P}.F1", "F", "compile_chain picks CONST > ENUM > REGEX > TYPE > DATE/ISO8601 > first member", [f"{GB}:GBNFCompiler.compile_chain"], ob_chain_selection),
         Ob(f"{P}.F2", "F", "CONST / ENUM literals are the canonical emitter's spelling of the value", [f"{GB}:GBNFCompiler._compile_const", f"{GB}:GBNFCompiler._compile_enum"], ob_literal_spelling),
     ]
+    # the acceptance half of the CONST / ENUM / TYPE argument: the members' own contracts (shared with C08)
+    from contracts import constraints as CC
+    from verif.pyvc.adapter import contract_ob
+
+    for i, c in enumerate(CC.MEMBER_CONTRACTS):
+        kind = c.qualname.split(".")[0]
+        if kind in ("ConstConstraint", "EnumConstraint", "TypeConstraint", "RequiredConstraint", "OptionalConstraint"):
+            obs.append(contract_ob(f"{P}.P1.{kind}", f"{kind}.evaluate: an equal value / exact member / value of the type is accepted (contract shared with C08)", (lambda i=i: CC.MEMBER_CONTRACTS[i]), f"contracts.constraints:MEMBER_CONTRACTS[{i}]"))
     try:
         from props import C13_b
 
